@@ -42,7 +42,8 @@ WHAT = {
     KEY_RBLK: "ADF_Read_Block_Data (several chunks that hold less than the block asked for: the node was re-dimensioned beyond its "
               "capacity and not yet rewritten) reports INCOMPLETE_DATA after memset(data_pointer, 0, total_bytes - bytes_read) into the "
               "caller's buffer of block_bytes bytes: heap-buffer-overflow WRITE (ASan) of up to the whole node's size",
-    KEY_UNSIGNED: "ADF_Write_Data counts the remaining bytes in an unsigned variable (state before /repo d6f9e64)",
+    KEY_UNSIGNED: "ADF_Write_Data counts the remaining bytes in an unsigned variable (state before /repo d6f9e64): a node grown to two "
+                  "chunks and then shrunk below the first one cannot be written with cgio_write_data any more (ADF 14) and becomes unreadable",
 }
 
 
@@ -428,28 +429,6 @@ def i4(vals):
     return b"".join(struct.pack("<i", v) for v in vals).hex()
 
 
-def witnesses(path):
-    """the four fixed histories that tell the variant of the code (and are the witnesses of the *_refuted theorems)"""
-    new = "new " + path
-    w = {}
-    # d6f9e64: 1024 x I4 written, grown to 1536 and block-written across the chunk boundary, shrunk to 9, strided write of element 9
-    w["unsigned"] = [new, "dims I4 1 1024", "wall " + i4(range(1024)), "dims I4 1 1536", "wblk 1000 1100 " + i4(range(5000, 5101)),
-                     "dims I4 1 9", "wsel 1 9 9 1 " + i4([77]), "rsel 1 9 9 1", "rall", "reopen", "rall"]
-    # two chunks 400 + 800 bytes; rewritten as 150 elements (the second chunk's end tag moves to byte 200); grown back;
-    # every element rewritten by a strided write; read_all
-    w["wall"] = [new, "dims I4 1 100", "wall " + i4(range(1000, 1100)), "dims I4 1 300", "wall " + i4(range(2000, 2300)),
-                 "dims I4 1 150", "wall " + i4(range(3000, 3150)), "dims I4 1 300", "wsel 1 1 300 1 " + i4(range(4000, 4300)),
-                 "rsel 1 1 300 1", "rall", "rblk 140 160", "reopen", "rall"]
-    # chunks 400 + 400 bytes, grown to 600 elements, block 301..350 written: belongs at byte 400 of the new 1600-byte chunk
-    w["wblk"] = [new, "dims I4 1 100", "wall " + i4(range(1000, 1100)), "dims I4 1 200", "wall " + i4(range(2000, 2200)),
-                 "dims I4 1 600", "wblk 301 350 " + i4(range(3000, 3050)), "rblk 301 350", "rsel 1 301 350 1", "reopen", "rblk 301 350"]
-    # a 5000-byte chunk whose data area starts at offset 0 of a block (pad found by search: see zero_pad)
-    w["zero"] = None
-    # two chunks of 16 bytes, re-dimensioned to 88 bytes and not rewritten: read_block of the last element (8 bytes wanted)
-    w["rblk"] = [new, "dims I8 1 2", "wall " + "11" * 16, "dims I8 1 4", "wblk 4 4 " + "22" * 8, "dims I8 1 11", "rblk 11 11"]
-    return w
-
-
 def zero_witness(path, pad):
     return ["new " + path, "pad %d" % pad, "dims C1 1 5000", "wsel 1 7 7 1 41", "rsel 1 7 7 1", "rsel 1 4500 4600 1"]
 
@@ -475,36 +454,50 @@ def find_zero_pad(exe, work):
     return None
 
 
+def corpus_scripts(work):
+    """corpus/C02c/*.txt: (file, key or None, switch index or None, lines); @PATH@ is replaced by a scratch file"""
+    d = os.path.join(vlib.ROOT, "corpus", "C02c")
+    out = []
+    if os.path.isdir(d):
+        for f in sorted(os.listdir(d)):
+            if not f.endswith(".txt"):
+                continue
+            key, sw, lines = None, None, []
+            for l in open(os.path.join(d, f)):
+                l = l.rstrip("\n")
+                if l.startswith("# key:"):
+                    key = l.split(":", 1)[1].strip()
+                elif l.startswith("# switch:"):
+                    sw = int(l.split(":", 1)[1])
+                elif l.strip() and not l.startswith("#"):
+                    lines.append(l.replace("@PATH@", os.path.join(work, "corpus_" + f[:-4] + ".adf")))
+            out.append((f, key, sw, lines))
+    return out
+
+
 def detect(exe, work):
-    """run the witnesses; returns (cfg string for the engine, {key: replay}, details)"""
-    path = os.path.join(work, "wit.adf")
-    w = witnesses(path)
-    pad = find_zero_pad(exe, work)
-    w["zero"] = zero_witness(path, pad) if pad else None
+    """run the five witness histories of corpus/C02c (one per repaired defect) and, for the zero fill, one whose pad size
+    is searched at run time; a witness that fails under the model-independent oracle (or a sanitizer) means that the
+    library is in the state BEFORE that commit: the switch goes to 0 (so that the model keeps describing the library)
+    and the defect is reported under its original key.  Returns (cfg string, {key: replay}, details)."""
+    bits = ["1"] * 5
     present, details = {}, {}
-    bits = {"unsigned": "0", "wall": "0", "wblk": "0", "zero": "0", "rblk": "0"}
-    for name, key in (("unsigned", KEY_UNSIGNED), ("wall", KEY_WALL), ("wblk", KEY_WBLK), ("zero", KEY_ZERO), ("rblk", KEY_RBLK)):
-        script = w[name]
-        if not script:
-            details[name] = "no witness"; continue
+    wits = [(f, key, sw, lines) for f, key, sw, lines in corpus_scripts(work) if sw is not None]
+    pad = find_zero_pad(exe, work)
+    if pad:
+        wits.append(("zero-fill witness with searched pad %d" % pad, KEY_ZERO, 3, zero_witness(os.path.join(work, "wit_zero.adf"), pad)))
+    for f, key, sw, script in wits:
         out, outcome, stack = vlib.run_impl(exe, "\n".join(script) + "\n", want_stack=True)
         bad = oracle_failure(out) if outcome == "ok" else {"outcome": outcome, "stack": stack}
-        defect = bad is not None
-        if name == "zero" and outcome == "ok":
-            # without ASan nothing fails; with the repair the unaddressed elements read as zero
-            defect = False
-        details[name] = {"defect_present": defect, "failure": bad}
-        if name == "unsigned":
-            bits[name] = "1" if defect else "0"
-        else:
-            bits[name] = "0" if defect else "1"
-        if defect:
-            present[key] = {"script": [short(x, 300) for x in script], "script_full": script, "failure": bad, "what": WHAT[key],
-                            "oracle": "plain Python array of the elements written since the last set_dimensions; sanitizer"}
-        if os.path.exists(path):
-            os.unlink(path)
-    cfg = bits["unsigned"] + bits["wall"] + bits["wblk"] + bits["zero"] + bits["rblk"]
-    return cfg, present, details, w
+        details[f] = {"defect_present": bad is not None, "failure": bad}
+        if bad is not None:
+            bits[sw] = "0"
+            present.setdefault(key, {"script": [short(x, 300) for x in script], "script_full": script, "failure": bad, "what": WHAT.get(key, ""),
+                                     "witness": f, "oracle": "plain Python array of the elements written since the last set_dimensions; sanitizer"})
+        p = script[0].split(" ")[1]
+        if os.path.exists(p):
+            os.unlink(p)
+    return "".join(bits), present, details
 
 
 def classify(viols, upto):
@@ -533,17 +526,6 @@ def crash_key(outcome, stack):
 def pack(script):
     return {"script": [short(x, 300) for x in script], "script_full": script if sum(map(len, script)) < 400000 else None,
             "script_sha1": hashlib.sha1("\n".join(script).encode()).hexdigest()}
-
-
-def corpus_scripts(work):
-    d = os.path.join(vlib.ROOT, "corpus", "C02c")
-    out = []
-    if os.path.isdir(d):
-        for f in sorted(os.listdir(d)):
-            if f.endswith(".txt"):
-                lines = [l.rstrip("\n").replace("@PATH@", os.path.join(work, "corpus_" + f[:-4] + ".adf")) for l in open(os.path.join(d, f)) if l.strip() and not l.startswith("#")]
-                out.append((f, lines))
-    return out
 
 
 # ----------------------------------------------------------------------------- the check
@@ -578,14 +560,13 @@ def run_extra(ck, pid="C02c"):
         "C02c: on the code as it is, read-after-write additionally assumes wall_safe / wblock_safe / zero_ok (three defects found; each has a kernel-checked *_refuted witness that is replayed on the library); the three hypotheses are identically true for the repaired variant"]
 
     findings, diffs = {}, []
-    cfg, present, details, wit = detect(exe, work)
-    ex["variant_detected"] = {"cfg(unsigned,fix_wall,fix_wblock,fix_zero,fix_rblock)": cfg, "witnesses": details}
+    cfg, present, details = detect(exe, work)
+    ex["variant_detected"] = {"cfg(d6f9e64,b21b08d,3f8f7e0,5177c7b,5c54229; 1 = commit present)": cfg, "witnesses": details}
     for key, rep in present.items():
         findings[key] = dict(rep, mode="witness")
 
     # ---- witnesses and corpus through the model of the detected variant (the model must predict them byte for byte)
-    fixed = [("witness:" + n, ["new " + os.path.join(work, "wit_%s.adf" % n)] + s[1:]) for n, s in wit.items() if s] + \
-            [("corpus:" + f, s) for f, s in corpus_scripts(work)]
+    fixed = [("corpus:" + f, lines) for f, key, sw, lines in corpus_scripts(work)]
     stats = {"histories": 0, "ops": 0, "by_max_chunks": {"0": 0, "1": 0, "2": 0, ">=3": 0}, "counters": {}, "skipped_ops": 0,
              "histories_with_unsafe_steps": 0, "crashes_predicted_by_model": 0}
 
@@ -690,7 +671,7 @@ def replay(ck, path):
     if not script:
         print("replay names a broken obligation / correspondence, no input to run"); return 1
     script = [script[0].split(" ")[0] + " " + os.path.join(ck.work, "replay.adf")] + script[1:]
-    cfg, present, details, wit = detect(exe, ck.work)
+    cfg, present, details = detect(exe, ck.work)
     out, outcome, stack, model = run_hist(exe, script, cfg)
     a = analyse(out, model); bad = oracle_failure(out)
     print("replay: outcome %s; oracle: %s; model(variant %s)/implementation divergences: %d; hypotheses breached: %s" % (
